@@ -1,4 +1,5 @@
 import PytaskProofs.Lemmas.EngineFail
+import PytaskProofs.Lemmas.EngineRerun
 /-!
 # C04 — failures are contained: dependants skipped, others run, nothing recorded
 
@@ -98,12 +99,12 @@ theorem C04_norecord {w : World} {picks : List Nat} {r : Result}
     exact norecord_core (run_order hso hrun).1 hrun rfl ht h1 h2 n
   · rw [hw]
 
-/-- **C04_rerun.** A task that failed still needs to run in the next build: if `t` is reported FAIL
+/-- **C04_rerun_unrecorded.** Special case that needs no stability premise and allows a changed project: if `t` is reported FAIL
 and (before the failing build) some neighbour of `t` had no recorded state — `t` never succeeded with
 that dependency / product set — then in any following build (any options, any schedule, failures
 switched off or on: `F₂ P₂` arbitrary) over the resulting world, `t` is **not** reported
 `SKIP_UNCHANGED`. -/
-theorem C04_rerun {w : World} {picks : List Nat} {r : Result}
+theorem C04_rerun_unrecorded {w : World} {picks : List Nat} {r : Result}
     (hdag : createDag P cfg = .ok (g, marks)) (hb : build F P cfg w picks = .ok r)
     {t : Nat} (ht : (t, Outcome.fail) ∈ r.reports)
     {F₂ : BodyFn} {P₂ : Project} {cfg₂ : Cfg} {g₂ : G} {marks₂ : List Nat} {picks₂ : List Nat} {r₂ : Result}
@@ -135,6 +136,128 @@ theorem C04_rerun {w : World} {picks : List Nat} {r : Result}
     rw [hpa.hpre.db_other t hnpre v] at hrows
     exact hrows hrow
   · rw [hr] at hsu; cases hsu
+
+/-- **C04_needed_of_fail.** Without `force`, a task reported FAIL *needed to run*: in the session in
+which its protocol started, some neighbour (dependency, `after`-linked product, its own module, a
+product) had no state, no recorded row, or a state different from the recorded row. -/
+theorem C04_needed_of_fail {w : World} {picks pre post : List Nat} {t : Nat} {so so1 so' : Sorter} {s1 s' : Sess}
+    (hloop : buildLoop F P g cfg so { w := w, skipMarks := marks } picks = .ok (so', s'))
+    (hp : picks = pre ++ t :: post)
+    (hpre : buildLoop F P g cfg so { w := w, skipMarks := marks } pre = .ok (so1, s1))
+    (hso : fromDag g isTaskV (prioFn P) = .ok so)
+    (ht : (t, Outcome.fail) ∈ s'.reports) (hforce : cfg.force = false) :
+    ∃ v ∈ neighbours g t, hasChanged s1.w t v (stateOf P s1.w v) = true := by
+  have hrun := run_of_buildLoop _ _ _ _ _ hloop
+  subst hp
+  obtain ⟨hn, _⟩ := run_order hso hrun
+  obtain ⟨so1', s1', spec, hpa⟩ := pickAt_of_split hrun
+  obtain ⟨rfl, rfl⟩ := Run.det hpa.hpre (run_of_buildLoop _ _ _ _ _ hpre)
+  rcases report_origin hrun t _ ht with h0 | ⟨pre2, post2, so2, s2, spec2, hpa2, ho⟩
+  · cases h0
+  obtain ⟨_, _, _, rfl, rfl⟩ := hpa.unique hn hpa2
+  have he : (runPhases F P g cfg s1' spec).1 = .error := outc_inj (b := .error) ho
+  have hfc := (runPhases_error_iff_failCond s1' spec).1 he
+  rw [← hpa.id_eq]
+  rcases hfc.2 with hm | ⟨hsc, _, _⟩
+  · obtain ⟨v, hv, hst⟩ := hm
+    refine ⟨v, ?_, by rw [hst]; rfl⟩
+    unfold neighbours
+    simp only [List.mem_append] at hv ⊢
+    exact Or.inl hv
+  · rw [hforce] at hsc
+    exact scan_changed_witness s1'.w spec.id _ hsc
+
+/-- **C04_rerun.** "A task that needed to run and failed still needs to run in the next build even if
+nothing changed in between." Build 1 (any options, any schedule) reports `t` FAIL, and `t` needed to run:
+at its setup some neighbour `v` had no state, no recorded row or a state different from the row
+(`C04_needed_of_fail`: automatic unless the run was merely forced). Build 2 starts from the resulting
+world with no edits — same project, any options, any schedule. Then `t` is **not** reported
+SKIP_UNCHANGED in build 2, provided the file behind `v` was not rewritten in between by a task whose body
+ran (from `t`'s protocol to the end of build 1, or in build 2) and that declares it as a product.
+
+That proviso is the honest exception: the rows of `t` are untouched (`C04_norecord`), and a file only
+changes when a task that declares it as product runs — `t` itself for its products (a body that writes
+its products and then raises may restore exactly the recorded content, see the example below), or, for a
+dependency, its producer (an ancestor of `t`) re-running in build 2 and producing the recorded value
+again. For an unrecorded neighbour no proviso is needed (`C04_rerun_unrecorded`). -/
+theorem C04_rerun {w : World} {picks pre post : List Nat} {t v : Nat} {so so1 so' : Sorter} {s1 s' : Sess}
+    (hdag : createDag P cfg = .ok (g, marks)) (hso : fromDag g isTaskV (prioFn P) = .ok so)
+    (hloop : buildLoop F P g cfg so { w := w, skipMarks := marks } picks = .ok (so', s'))
+    (hp : picks = pre ++ t :: post)
+    (hpre : buildLoop F P g cfg so { w := w, skipMarks := marks } pre = .ok (so1, s1))
+    (ht : (t, Outcome.fail) ∈ s'.reports)
+    (hv : v ∈ neighbours g t) (hneed : hasChanged s1.w t v (stateOf P s1.w v) = true)
+    {cfg₂ : Cfg} {g₂ : G} {marks₂ : List Nat} {picks₂ : List Nat} {r₂ : Result}
+    (hdag₂ : createDag P cfg₂ = .ok (g₂, marks₂)) (hb₂ : build F P cfg₂ s'.w picks₂ = .ok r₂)
+    (hstable : ∀ n, fileOf P v = some n → ∀ x spec', Project.find? P x = some spec' →
+      (((x = t ∨ x ∈ post) ∧ x ∈ s'.log) ∨ x ∈ r₂.log) → n ∉ spec'.prods) :
+    (t, Outcome.skipUnchanged) ∉ r₂.reports := by
+  intro hsu
+  have hg : g₂ = g := by rw [(createDag_ok hdag₂).1, (createDag_ok hdag).1]
+  subst hg
+  have hrun := run_of_buildLoop _ _ _ _ _ hloop
+  subst hp
+  obtain ⟨hn, _⟩ := run_order hso hrun
+  obtain ⟨so1', s1', spec, hpa⟩ := pickAt_of_split hrun
+  obtain ⟨rfl, rfl⟩ := Run.det hpa.hpre (run_of_buildLoop _ _ _ _ _ hpre)
+  rcases report_origin hrun t _ ht with h0 | ⟨pre', post', so2, s2, spec2, hpa', ho⟩
+  · cases h0
+  obtain ⟨_, _, _, rfl, rfl⟩ := hpa.unique hn hpa'
+  have he : (runPhases F P g₂ cfg s1' spec).1 = .error := outc_inj (b := .error) ho
+  have hnd : (pre ++ t :: post).Nodup := hn
+  have hnpost : t ∉ post := (List.nodup_cons.1 (List.nodup_append.1 hnd).2.1).1
+  -- build 2
+  have hnofd : ¬ (r₂.reports = []) := fun h => by rw [h] at hsu; cases hsu
+  rcases build_run hdag₂ hb₂ with hbr | ⟨hrb, _, _, _⟩
+  case inr => exact absurd hrb hnofd
+  obtain ⟨sob, sob', sb', hsob, hrunb, hrb, hlb, _, _, _⟩ := hbr
+  rw [hrb] at hsu
+  obtain ⟨hnb, _⟩ := run_order hsob hrunb
+  rcases report_origin hrunb t _ hsu with h0 | ⟨preb, postb, sob1, sb1, specb, hpab, hob⟩
+  · cases h0
+  have hspec : spec = specb := by simpa using hpa.hfind.symm.trans hpab.hfind
+  subst hspec
+  have hndb : (preb ++ t :: postb).Nodup := by rw [← hpab.hp]; exact hnb
+  have hnpreb : t ∉ preb := fun hm => (List.nodup_append.1 hndb).2.2 t hm t (by simp) rfl
+  -- `t` is reported unchanged in build 2: every neighbour matches its row at `t`'s setup there
+  have hsk : (runPhases F P g₂ cfg₂ sb1 spec).1 = .skippedUnchanged := outc_inj (b := .skippedUnchanged) hob
+  have hsc : setupChain P g₂ cfg₂ sb1 spec Generated.setupOrder = .skippedUnchanged := by
+    unfold runPhases at hsk
+    split at hsk
+    · split at hsk
+      · simp at hsk
+      · simp only [] at hsk
+        split at hsk <;> (try split at hsk) <;> simp at hsk
+    · simpa using hsk
+  have hscan := setupChain_unchanged sb1 spec hsc
+  rw [hpab.id_eq] at hscan
+  have hnochange := (scan_unchanged_nochange sb1.w t _ _ hscan).2 v hv
+  -- rows of `t` did not move …
+  have hrow : lookup sb1.w.db (tv t, v) = lookup s1'.w.db (tv t, v) := by
+    rw [hpab.hpre.db_other t hnpreb v]
+    show lookup s'.w.db (tv t, v) = _
+    rw [hpa.hpost.db_other t hnpost v, protocol_db_norecord _ _ (by rw [he]; simp) (by rw [he]; simp)]
+  -- … and neither did the file behind `v`
+  have hst : stateOf P sb1.w v = stateOf P s1'.w v := by
+    apply stateOf_congr_file
+    intro n hn'
+    have hlogb : sb1.log <+: sb'.log :=
+      List.IsPrefix.trans (by
+        rcases protocol_log F P g₂ cfg₂ sb1 spec with h | h <;> rw [h]
+        · exact List.prefix_refl _
+        · exact List.prefix_append _ _) hpab.hpost.log_prefix
+    rw [hpab.hpre.fs_frame n (fun x _ sp hf hl => hstable n hn' x sp hf (Or.inr (by rw [hlb]; exact hlogb.subset hl)))]
+    show lookup s'.w.fs n = _
+    rw [hpa.hpost.fs_frame n (fun x hx sp hf hl => hstable n hn' x sp hf (Or.inl ⟨Or.inr hx, hl⟩))]
+    apply Classical.byContradiction
+    intro hne
+    obtain ⟨hprod, hlog⟩ := protocol_fs_change s1' spec n hne
+    have : t ∈ s'.log := by
+      apply hpa.hpost.log_prefix.subset
+      rw [hlog, hpa.id_eq]; simp
+    exact hstable n hn' t spec hpa.hfind (Or.inl ⟨Or.inl rfl, this⟩) hprod
+  rw [hasChanged_congr hrow hst, hneed] at hnochange
+  cases hnochange
 
 /-- **C04_limit.** With a failure limit `n ≥ 1` (`max_failures=n`; `stop_after_first_failure` is
 `n = 1`): at most `n` tasks are reported FAIL, and whenever the protocol of a task starts, fewer
@@ -220,5 +343,16 @@ example : ∃ r r₂, build c04F c04P {} c04W [0, 2, 1, 3] = .ok r ∧ build c04
     (0, Outcome.fail) ∈ r₂.reports ∧ (2, Outcome.skipUnchanged) ∈ r₂.reports := by
   refine ⟨_, _, rfl, rfl, ?_⟩
   decide
+
+/-- The honest exception of `C04_rerun`, witnessed: task 0 (writes its product, then raises) has a
+recorded row for every neighbour from an earlier success; its product file 20 was removed, so it needs to
+run. Build 1: the body restores exactly the recorded content and raises — FAIL, nothing recorded.
+Build 2, no edits: every neighbour matches its row — SKIP_UNCHANGED. The witness neighbour is a product
+that `t` itself rewrote. -/
+def c04Late : Project := ⟨[{ id := 0, src := 90, deps := [10], prods := [20], after := [], beh := .raisesLate }]⟩
+def c04LateW : World := ⟨[(10, 5), (90, 7)], [((0, 21), 5), ((0, 0), 7), ((0, 41), 0)]⟩
+example : ∃ r r₂, build c04F c04Late {} c04LateW [0] = .ok r ∧ r.reports = [(0, Outcome.fail)] ∧
+    build c04F c04Late {} r.w [0] = .ok r₂ ∧ r₂.reports = [(0, Outcome.skipUnchanged)] := by
+  refine ⟨_, _, rfl, ?_, rfl, ?_⟩ <;> decide
 
 end Pytask
